@@ -229,6 +229,23 @@ def ord9_insert(ctx):
         ctx.check('ORD-9', 'insert_bin|ok-after-ingest-completed',
                   any(cfg.dominates(r, ob.id) for r in ready),
                   '200 is built only on the Ready edge of polling the ingestion future', where(ot))
+    # the only reason to refuse a request is that it does not decode: nothing on the Ok edge of
+    # EventBuffer::deserialize builds a non-2xx response (the embedded API accepts every EventBuffer)
+    des = calls_matching(b, lambda n: n.endswith('EventBuffer::deserialize'))
+    ctx.require(des, 'ORD-9: insert_bin does not call EventBuffer::deserialize')
+    from .common import classify_result_use
+    for (db_, dt) in des:
+        use = classify_result_use(b, du, dt)
+        sb = use.get('success_block')
+        refusals = [(rb, rt) for (rb, rt) in b.calls() if not rb.cleanup and
+                    re.search(r'HttpResponse::(?!Ok$|build$|new$)\w+$', norm_callee(rt.func or '')) and
+                    sb is not None and cfg.dominates(sb, rb.id)]
+        ctx.check('ORD-9', 'insert_bin|decoded-request-is-ingested', sb is not None and not refusals,
+                  'a request that decodes %s' % ('is always handed to ingest_efficient (no refusal on the Ok edge of '
+                                                 'deserialize)' if sb is not None and not refusals else
+                                                 'can still be refused (%s): the HTTP interface rejects a batch the '
+                                                 'embedded interface ingests' % sorted({norm_callee(rt.func).split('::')[-1] for (_rb, rt) in refusals})),
+                  where(refusals[0][1]) if refusals else where(dt))
     for (bb, bt) in bads:
         ctx.check('ORD-9', 'insert_bin|bad-request-without-ingest',
                   not any(cfg.can_reach(ib.id, bb.id) for (ib, it) in ing) and
